@@ -149,6 +149,35 @@ def check(src, rep):
                     n_find += 1
                     rep.violation("R1", f"{MOD}.ConnectionManager.{f.name}", "wait-on-empty-set", f"{n.func.attr}(*{star.value.id}) hands the possibly empty rest of a FIRST_COMPLETED wait to a helper "
                                   "that awaits asyncio.wait() on it: wait() raises ValueError for an empty set, which ends the reconnect loop with live tasks/connection", file, n.lineno)
+    # borrowed futures: ensure_future(<a future that exists already>) returns that very object -- cancelling it (directly, through a helper that cancels its
+    # arguments, or through wait_for's timeout) cancels a future the manager does not own (the protocol's `done`): the owner's set_result() then raises
+    from sa.asyncts import call_name as _cn
+    n_borrowed = 0
+    for f in units:
+        borrowed = {}
+        for n in ast.walk(f.node):
+            if isinstance(n, ast.Assign) and len(n.targets) == 1 and isinstance(n.targets[0], ast.Name) and isinstance(n.value, ast.Call) and _cn(n.value) == "ensure_future" \
+                    and n.value.args and not isinstance(n.value.args[0], ast.Call):
+                borrowed[n.targets[0].id] = ast.unparse(n.value.args[0])
+        n_borrowed += len(borrowed)
+        for n in ast.walk(f.node):
+            if not isinstance(n, ast.Call):
+                continue
+            hit = None
+            if isinstance(n.func, ast.Attribute) and n.func.attr == "cancel" and isinstance(n.func.value, ast.Name) and n.func.value.id in borrowed:
+                hit = (n.func.value.id, "cancel()")
+            elif isinstance(n.func, ast.Attribute) and isinstance(n.func.value, ast.Name) and n.func.value.id in ("self", "cls", "ConnectionManager") and helpers.get(n.func.attr) is True:
+                for a_ in n.args:
+                    a0 = a_.value if isinstance(a_, ast.Starred) else a_
+                    for x_ in ast.walk(a0):
+                        if isinstance(x_, ast.Name) and x_.id in borrowed:
+                            hit = (x_.id, f"{n.func.attr}(), which cancels the arguments that are still pending")
+            elif _cn(n) == "wait_for" and n.args and isinstance(n.args[0], ast.Name) and n.args[0].id in borrowed:
+                hit = (n.args[0].id, "wait_for(), which cancels it when the timeout expires")
+            if hit:
+                n_find += 1
+                rep.violation("R1", f"{MOD}.ConnectionManager.{f.name}", f"cancels-borrowed-future:{hit[0]}", f"`{hit[0]}` is ensure_future({borrowed[hit[0]]}) - the very future object its owner completes - and is "
+                              f"handed to {hit[1]}: the owner's later set_result() raises InvalidStateError and everybody else waiting on it sees a cancellation", file, n.lineno)
     rep.count("task_handles", n_handles)
     n_find += len(nonlocal_find)
     if not n_find:
@@ -325,6 +354,7 @@ def check(src, rep):
         rep.ok("R6", "close()", "sets the closing event first, then closes the current transport if there is one")
     _loss_signal(rep, M, src)
     from sa.cross import include
+    include(rep, src, "C18", {"R1"}, "R5", "the back-off strategy answers after any number of consecutive failures (an exception there ends the connect task before the factory is called, and no further attempt is made)")
     include(rep, src, "C18", {"R4"}, "R5", "the loss bookkeeping the loop runs after every loss is well-formed (an exception there ends connect_loop and with it all reconnecting)")
 
 
